@@ -115,6 +115,78 @@ class Batch(ArrowSerializableDataclass):
     fallback: Query | None = field(default_factory=Query)
 
 
+# Inherited dataclass families (NOT in DATAS: nothing else in the process may serialize them, the ORDER of first
+# serializations is the point).  Family A is exercised parent first, family B leaf first.
+def _family(suffix: str) -> dict[str, type]:
+    ns: dict[str, Any] = {"dataclass": dataclass, "field": field, "ArrowSerializableDataclass": ArrowSerializableDataclass, "Color": Color}
+    exec(  # noqa: S102 - two structurally identical, distinct class families
+        f"""
+@dataclass(frozen=True)
+class Shape{suffix}(ArrowSerializableDataclass):
+    x: int
+    y: int = 0
+
+@dataclass(frozen=True)
+class Labeled{suffix}(Shape{suffix}):          # child adding defaulted fields
+    label: str = ""
+    weight: float | None = None
+    hue: Color = Color.GREEN
+
+@dataclass(frozen=True, kw_only=True)
+class Tagged{suffix}(Shape{suffix}):           # sibling child adding a NON-defaulted field
+    tag: str
+    n: int = 1
+
+@dataclass(frozen=True)
+class Deep{suffix}(Labeled{suffix}):           # grandchild
+    extra: list[int] = field(default_factory=list)
+    note: str | None = "n"
+""",
+        ns,
+    )
+    return {k: v for k, v in ns.items() if isinstance(v, type) and k.endswith(suffix) and k != "Color"}
+
+
+FAMILY_A = _family("A")
+FAMILY_B = _family("B")
+_NS_FAMILIES = {**FAMILY_A, **FAMILY_B}
+
+
+def inheritance_plan() -> list[tuple[str, Any]]:
+    """(class name, instance) in the order the echo calls must be made, all in this one process:
+    family A  parent, child, parent again, sibling, grandchild, child, parent;  family B  grandchild, child, parent, sibling, child."""
+    a, b = FAMILY_A, FAMILY_B
+    return [
+        ("ShapeA", a["ShapeA"](1, 2)),
+        ("LabeledA", a["LabeledA"](3, 4, "café", -0.0, Color.RED)),
+        ("ShapeA", a["ShapeA"](5)),
+        ("TaggedA", a["TaggedA"](x=6, y=7, tag="t", n=8)),
+        ("DeepA", a["DeepA"](9, 10, "lbl", 1.5, Color.BLUE, [1, 2], None)),
+        ("LabeledA", a["LabeledA"](11)),
+        ("ShapeA", a["ShapeA"](-1, -2)),
+        ("DeepB", b["DeepB"](1, 2, "é", 2.5, Color.RED, [3], "note")),
+        ("LabeledB", b["LabeledB"](3, 4, "café", -0.0)),
+        ("ShapeB", b["ShapeB"](5, 6)),
+        ("TaggedB", b["TaggedB"](x=7, tag="")),
+        ("LabeledB", b["LabeledB"](8, 9, "x", None, Color.BLUE)),
+        ("DeepB", b["DeepB"](0)),
+    ]
+
+
+def build_inheritance_service() -> tuple[type, Any]:
+    """def <Class>(self, v: C) -> C  and  def opt_<Class>(self, v: C | None) -> C | None  for every class of both families."""
+    ns = dict(_NS)
+    ns.update(_NS_FAMILIES)
+    ns["SEEN"] = SEEN
+    src, imp = ["class P(Protocol):"], ["class Impl:"]
+    for name in _NS_FAMILIES:
+        for meth, ann in ((name, name), ("opt_" + name, f"{name} | None")):
+            src.append(f"    def {meth}(self, v: {ann}) -> {ann}: ...")
+            imp.append(f"    def {meth}(self, v: {ann}) -> {ann}:\n        SEEN.append(v)\n        return v")
+    exec("\n".join(src) + "\n" + "\n".join(imp) + "\n", ns)  # noqa: S102
+    return ns["P"], ns["Impl"]()
+
+
 ALL_NONE_QUERY = dict(limit=None, ratio=None, label=None, side=None, tags=None, opts=None, origin=None, flag=None)
 DATAS = [Pt, Box, Reading, Log, Query, Batch]
 UNITS = {"s": 1_000_000, "ms": 1_000, "us": 1, "ns": 1}
